@@ -418,3 +418,57 @@ def f1_variant(rng, ns="fv"):
         lines.append(f"{ns}.c{i} {{n:#}} {{m:#}} {' '.join(fs)} = {ns}.C{i} n m;")
     lines.append(f"{ns}.top a:# b:# v:({ns}.c0 a b) = {ns}.Top;")
     return "\n".join(lines) + "\n"
+
+
+# ----------------------------------------------------------------------------- JSON default filling
+
+def ext_cycle_nodes(ins):
+    """type ids on a cycle of bare struct fields / tuple elements none of which is under a LOCAL mask.
+    The generated JSON reader fills an absent member with defaults by calling the member's reader with
+    no input: local masks are then 0 (field absent), external / constant masks keep their value, nothing
+    is consumed -- so such a cycle makes the default filling recurse forever, whatever precedes the
+    recursive field (a consuming field in front of it saves the TL1 reader, not the JSON reader)."""
+    g = {}
+    for x in ins:
+        out = []
+        if x["kind"] == "struct":
+            for f in x["fields"]:
+                m = f.get("mask")
+                if nc(ins, f["type"], f["bare"]) and not (m is not None and m["kind"] == "field"):
+                    out.append(f["type"])
+        elif x["kind"] == "array" and x.get("isTuple"):
+            f = x["elem"]
+            if nc(ins, f["type"], f["bare"]):
+                out.append(f["type"])
+        g[x["id"]] = out
+    on_cycle = set()
+    for start in g:
+        seen, todo = set(), list(g[start])
+        while todo:
+            t = todo.pop()
+            if t == start:
+                on_cycle.add(start)
+                break
+            if t in seen:
+                continue
+            seen.add(t)
+            todo += g.get(t, [])
+    return on_cycle
+
+
+def reaches(ins, tid, targets):
+    seen, todo = set(), [tid]
+    while todo:
+        t = todo.pop()
+        if t is None or t < 0 or t >= len(ins) or t in seen:
+            continue
+        if t in targets:
+            return True
+        seen.add(t)
+        x = ins[t]
+        todo += [f["type"] for f in x.get("fields", [])] + list(x.get("variants") or [])
+        if x.get("elem"):
+            todo.append(x["elem"]["type"])
+        if x.get("result"):
+            todo.append(x["result"]["type"])
+    return False
